@@ -243,6 +243,9 @@ fn scenario(env: &Env, d: &mut Delta, rng: &mut impl Rng, sample: bool) {
 
     let desc = json!({"datagrams": desc_dg, "arrivals": frags.len(), "duplicates": dup_idx.len(), "overlap_cut": use_overlap, "expiry_callbacks": exp_at});
 
+    if sample {
+        d.sample(json!({"scenario": desc, "arrival_order": frags.iter().take(16).map(|f| format!("dg{} off{} len{}{}{}", f.dgram, f.offset_blocks, f.bytes.len(), if f.last {" LAST"} else {""}, if f.alt {" alt"} else {""})).collect::<Vec<_>>()}));
+    }
     let mut re = Reassembly::new();
     let mut model: HashMap<Key, ModelBuf> = HashMap::new();
     // for culling: remember the last Incomplete result per key as opaque closure data
@@ -480,9 +483,6 @@ fn scenario(env: &Env, d: &mut Delta, rng: &mut impl Rng, sample: bool) {
     let had_event = !dup_idx.is_empty() || n_exp > 0 || use_overlap;
     if interleaved && out_of_order && had_event {
         d.nontrivial(crate::fnv_str(&desc.to_string()) ^ crate::fnv_str(&serde_json::to_string(&history).unwrap()));
-    }
-    if sample {
-        d.sample(json!({"scenario": desc, "history_head": history.iter().take(12).collect::<Vec<_>>()}));
     }
     let _ = env;
 }
